@@ -84,7 +84,7 @@ def run(ctx):
         ctx.obligation_failed("function-translator", "; ".join(fn_problems)[:1500])
     c.prove(ctx, sorted({m for m, _ in THEOREMS}), THEOREMS)
 
-    exe = c.build_rt()
+    exe = c.build_rt(own="inter")
     tuples, exhaustive_n = gen_tuples(ctx)
     ops = ["inter " + spec_of(t) for t in tuples]
     impl = c.run_lines(exe, ops)
